@@ -72,6 +72,13 @@ pub struct FaultPlan {
     /// that cannot know operation indexes in advance.
     #[serde(default, skip_serializing_if = "Option::is_none")]
     pub crash_on: Option<(String, String)>,
+    /// With `crash_on`: let this many matching operations pass first.
+    #[serde(default, skip_serializing_if = "is_zero_u32")]
+    pub crash_on_skip: u32,
+}
+
+fn is_zero_u32(n: &u32) -> bool {
+    *n == 0
 }
 
 impl FaultPlan {
@@ -458,6 +465,7 @@ pub struct Interceptor {
     pub fired: Mutex<Vec<(u32, Fault)>>,
     pub delays: AtomicU32,
     gated: AtomicBool,
+    crash_on_seen: AtomicU32,
 }
 
 impl std::fmt::Debug for Interceptor {
@@ -637,7 +645,10 @@ impl Backend for Interceptor {
                     None => path.starts_with(prefix.as_str()),
                 };
                 if store::op_verb(&op) == verb && hit {
-                    fault = Some(Fault::CrashBefore);
+                    let seen = self.crash_on_seen.fetch_add(1, SeqCst);
+                    if seen == self.plan.crash_on_skip {
+                        fault = Some(Fault::CrashBefore);
+                    }
                 }
             }
         }
@@ -799,6 +810,7 @@ where
         fired: Mutex::new(Vec::new()),
         delays: AtomicU32::new(0),
         gated: AtomicBool::new(opts.gated),
+        crash_on_seen: AtomicU32::new(0),
     });
     let log_from = core.log_len();
     let transport = Transport::verif_with_backend(ic.clone());
